@@ -84,6 +84,11 @@ type Store struct {
 	// AddFail, if set, decides (under mu) whether the n-th Add (1-based) fails.
 	AddFail func(n int, c cid.Cid) bool
 	adds    int
+	// AddStall, if set, decides (under mu) whether the n-th Add stalls until the caller's context ends (OnStall is
+	// called first, outside mu - typically it ends that context) and is then dropped with the context's error.
+	AddStall func(n int, c cid.Cid) bool
+	OnStall  func()
+	stalls   int
 
 	// gating
 	gated    bool
@@ -324,6 +329,25 @@ func (d *dagSvc) Add(ctx context.Context, n format.Node) error {
 	defer s.mu.Unlock()
 	s.adds++
 	c := n.Cid()
+	if s.AddStall != nil && s.AddStall(s.adds, c) {
+		// a store that honours the caller's context: the write is pending when the context ends, and is dropped
+		s.ev("add-stall", c, "")
+		s.stalls++
+		s.mu.Unlock()
+		if s.OnStall != nil {
+			s.OnStall()
+		}
+		select {
+		case <-ctx.Done():
+		case <-time.After(5 * time.Second):
+		}
+		time.Sleep(20 * time.Millisecond) // (the store notices the cancellation a little later than the caller)
+		s.mu.Lock()
+		if err := ctx.Err(); err != nil {
+			return err
+		}
+		return ErrInjected
+	}
 	if s.AddFail != nil && s.AddFail(s.adds, c) {
 		s.ev("add-fail", c, "")
 		return ErrInjected
